@@ -47,6 +47,22 @@ def build_plan(tier, seed):
         {"name": "thr1000_b3", "inputs": corpus.sample(fast, 24 if quick else 150, rng), "form": "list",
          "batch_size": 3, "n_jobs": 8, "threshold": 1.0},
     ]
+    # homogeneous batches: a call / batch that lacks whole kinds of rows (only balanced, only
+    # rule-based, only MCS-based, only declined), alone and as consecutive batches of one call
+    kinds = {
+        "balanced": [s for s in gen.BALANCED_SPECIAL[:6]] + ["CCO>>CCO", "CC(=O)O.CO>>CC(=O)OC.O"],
+        "rule": ["CCBr.[OH-]>>CCO", "CC(=O)Cl.N>>CC(N)=O", "CCN.CC(=O)Cl>>CCNC(C)=O", "CCCl.[Na+].[OH-]>>CCO",
+                 "c1ccccc1C(=O)Cl.OC>>c1ccccc1C(=O)OC", "CS(=O)(=O)Cl.CCO>>CCOS(C)(=O)=O"],
+        "mcs": ["CC(=O)OCC>>CCO", "CC(=O)OC>>CC(=O)O", "CCC(=O)OC>>CO", "CC(=O)Nc1ccccc1>>Nc1ccccc1",
+                "COC(=O)c1ccccc1>>OC(=O)c1ccccc1", "CC(=O)OC(C)C>>CC(C)O"],
+        "declined": ["CC>>CCC", "BrBr>>Cl", "C>>CC.C", "CCO>>CCOCC", "[Pu]>>[Am]", "CC(=O)OCC>>CC(=O)[O-].[Cs+]"],
+    }
+    for k, rx in kinds.items():
+        runs.append({"name": "only_" + k, "inputs": rx, "form": "list", "batch_size": None, "n_jobs": 4, "threshold": 0})
+    seq = kinds["balanced"][:3] + kinds["mcs"][:3] + kinds["rule"][:3] + kinds["declined"][:3] + kinds["balanced"][3:6]
+    runs.append({"name": "homogeneous_batches_b3", "inputs": seq, "form": "dict", "batch_size": 3, "n_jobs": 4, "threshold": 0})
+    runs.append({"name": "homogeneous_batches_b3_thr", "inputs": seq, "form": "list", "batch_size": 3, "n_jobs": 4,
+                 "threshold": 0.5})
     return {"runs": runs}
 
 
